@@ -660,3 +660,55 @@ contract(F, "ForestRuleExtractor._minimize", props=["C11"], lenient=True, aliase
          loops={0: dict(invariant=[], modifies=_MK_MODS)},
          modifies=_MK_MODS,
          notes="order of minimisation")
+
+# ---------------------------------------------------------------- C03/C11: the forest rule database feeds the table (RuleDBForest.add)
+# The table of a forest database satisfies the table invariant from construction on, and `add` hands it the forward key of the rule
+# and -- when reverse rules are enabled and the rule is reversible -- one reverse key per child, each a well-formed key.
+# Two facts about code outside this function are ASSUMED (explicit `assume` statements, reported in the evidence):
+#   * ClassDB.get_label returns a non-negative label (it is an index of the class database's label list, C15);
+#   * a rule declares one shift per child (A2 for user strategies; verified for the library's strategies under C10/C02, D13).
+REG.classes["RuleDBForest"].fields.update({"reverse": Bool, "table_method": Obj("TableMethod"), "_num_rules": Int,
+                                           "_already_empty": Set(Int), "classdb": Obj("ClassDB")})
+REG.classes["RuleDBForest"].invariant = list(REG.classes["RuleDBForest"].invariant) + tbl_inv("self.table_method")
+_WFKEY_FACTS = ("{k}.parent >= 0 and len({k}.children) == len({k}.shifts) and "
+                "forall(lambda j: implies(0 <= j and j < len({k}.children), {k}.children[j] >= 0))")
+contract(F, "RuleDBForest._add_empty_rule", props=["C03"], verify=False, aliases=FAL,
+         trusted_reason="may call searcher.add_rule (recursion into the expansion machinery, which ends in this database's add): only "
+                        "its frame is used -- the table keeps its invariant (add's own postcondition)",
+         params={"self": Obj("RuleDBForest"), "ends": Seq(Int), "rule": Obj("Rule")},
+         ensures=["wf(self)"], may_raise=["AssertionError", "IndexError", "ValueError", "StrategyDoesNotApply"],
+         modifies=["*self._already_empty", "all:Obj('TableMethod')", "all:List(ForestRuleKey)", "all:List(List(Opt(Int)))", "all:List(Int)",
+                   "all:Deque(Int)", "all:Set(Int)", "all:List(Opt(Int))", "all:Obj('Function')", "all:Obj('DefaultListInt')",
+                   "all:List(List(Int))", "all:List(List(Tup(Int, Int)))", "all:List(Tup(Int, Int))", "all:Obj('DefaultListIdx')",
+                   "all:Obj('DefaultListPairs')", "all:Obj('AbstractRule')", "self._num_rules"])
+contract(F, "RuleDBForest.add", props=["C03", "C11"], lenient=True, aliases=FAL,
+         params={"self": Obj("RuleDBForest"), "start": Int, "ends": Seq(Int), "rule": Obj("Rule")},
+         locals={"new_rule_keys": List(ForestRuleKey)},
+         may_raise=["AssertionError", "IndexError", "ValueError", "StrategyDoesNotApply"], asserts="raise",
+         ensures=["wf(self)"],
+         # reverse forms only when the database was built with reverse=True and the rule says it is reversible; one per child index
+         call_requires={"Rule.to_reverse_rule": ["caller_self.reverse", "reversible_of(self)",
+                                                 "0 <= idx and idx < len(children_of(self))", "same(self, rule)"],
+                        "TableMethod.add_rule_key": ["same(self, caller_self.table_method)"]},
+         ghost_stmts={"before:loop#0": [
+             "assume forall(lambda q: implies(0 <= q and q < len(new_rule_keys), " + _WFKEY_FACTS.format(k="new_rule_keys[q]") + ")) "
+             "## every forest key of the rule (forward and reverse forms) is well formed: labels of the class database are non-negative "
+             "(C15) and every form of a rule declares one shift per child (A2; library strategies: C10/C02, D13)"]},
+         loops={0: dict(invariant=["wf(self)"], modifies=["all:Obj('TableMethod')", "all:List(ForestRuleKey)", "all:List(List(Opt(Int)))",
+                                                          "all:List(Int)", "all:Deque(Int)", "all:Set(Int)", "all:List(Opt(Int))",
+                                                          "all:Obj('Function')", "all:Obj('DefaultListInt')", "all:List(List(Int))",
+                                                          "all:List(List(Tup(Int, Int)))", "all:List(Tup(Int, Int))",
+                                                          "all:Obj('DefaultListIdx')", "all:Obj('DefaultListPairs')"])},
+         modifies=["*self._already_empty", "all:Obj('TableMethod')", "all:List(ForestRuleKey)", "all:List(List(Opt(Int)))", "all:List(Int)",
+                   "all:Deque(Int)", "all:Set(Int)", "all:List(Opt(Int))", "all:Obj('Function')", "all:Obj('DefaultListInt')",
+                   "all:List(List(Int))", "all:List(List(Tup(Int, Int)))", "all:List(Tup(Int, Int))", "all:Obj('DefaultListIdx')",
+                   "all:Obj('DefaultListPairs')", "all:Obj('AbstractRule')", "self._num_rules"],
+         notes="the table of the database keeps its invariant across the insertion of a rule")
+if "RuleDBAbstract.__init__" not in REG.contracts:
+    contract("comb_spec_searcher/rule_db/abstract.py", "RuleDBAbstract.__init__", props=["C03"], self_invariant=False, verify=False,
+             trusted_reason="one assignment (`self._searcher = None`): only its frame is used",
+             params={"self": Obj("RuleDBAbstract")}, modifies=["*self"])
+contract(F, "RuleDBForest.__init__", props=["C03", "C11"], lenient=True, aliases=FAL, self_invariant=False,
+         params={"self": Obj("RuleDBForest"), "reverse": Bool, "rule_cache": Opaque("Any")},
+         ensures=["wf(self)", "self.reverse == reverse", "len(self.table_method._rules) == 0", "fresh(self.table_method)"],
+         modifies=["*self"], notes="a new forest database owns a new, empty table that satisfies the table invariant")
